@@ -186,6 +186,29 @@ fn check_case(check: &Check, case: &Case, origin: &str) -> CaseResult {
         Err(e) => {
             // an error is not silent loss
             check.bump(&format!("rebuild_err:{}", err_kind(&e)), 1);
+            if o.verify && !o.list_only {
+                // … but the verification step must not reject a rebuild that is in fact complete:
+                // the same rebuild without verification, judged against the ground truth
+                let dst2 = dir.path().join("dst-noverify.mpq");
+                let mut o2 = to_opts(o);
+                o2.verify = false;
+                if let Ok(Ok(_)) = engine::guard("rebuild_archive(verify off)", || rebuild_archive(&src, &dst2, o2, None)) {
+                    let complete = match Archive::open(&dst2) {
+                        Ok(mut t) => spec.listfile && spec.files.iter().enumerate().all(|(i, f)| {
+                            (o.skip_encrypted && f.enc != Enc::None) || matches!(t.read_file(&f.name), Ok(d) if d == spec.content(i))
+                        }),
+                        Err(_) => false,
+                    };
+                    if complete {
+                        check.bump("verify_control_runs", 1);
+                        vfail!(
+                            format!("verify-rejects-complete-rebuild:{}", err_kind(&e)),
+                            "rebuild with verify=true fails ({e}) although the same rebuild with verify=false succeeds and every source file reads bit-identically from its target — opts {o:?} — {}",
+                            spec.summary()
+                        );
+                    }
+                }
+            }
             return Ok(());
         }
     };
